@@ -1,4 +1,16 @@
-"""C09: the config parser delivers every line once, in order, to the innermost open context (src/conf.c)."""
+"""C09: the config parser delivers every line once, in order, to the innermost open context (src/conf.c).
+
+The model (coq/Conf/ConfModel.v) follows the code after these repairs (fix: commits of the scratch copy):
+  * table capacities ctx_cnt / ctx_state_cnt / fstate_cnt / builtin_cnt were unsigned char: 160 * 2 wrapped to 64 and the
+    next store ran past the shrunken block (160 nested begin lines, the 160th context, built-in, nested %include)
+  * spifconf_register_context("null", h) after other registrations stored at context[ctx_idx] instead of context[0]
+  * a line consisting of '%' passed NULL to strncasecmp
+  * the last line of a file without a newline was reported over-long and dropped
+  * spifconf_open_file on an empty file used its uninitialised first-line buffer
+  * growing the built-in table lost the NULL-name terminator spifconf_shell_expand scans for
+  * (C11) spifconf_free_subsystem left spifconf_vars dangling; every %include leaked its path; %preproc leaked the output
+    file name when the temporary file could not be opened
+"""
 import re
 import vlib
 import conflib as L
@@ -18,14 +30,36 @@ class C09(vlib.PropertyCheck):
     assumptions = ['handlers do not touch the parser\'s own state (they are functions of their arguments and of their own world)',
                    'value expansion is a parameter of the model; the generated lines contain no $ ~ \\ ` and quotes only where '
                    'no expansion takes place, so the harness sees the identity (a leading % is dropped, %put(k v) stores a variable)',
-                   'spiftool_get_word / spiftool_get_pword return what property C12 says (hypotheses of the theorems until '
-                   'LV.Split.SplitProofs provides them)',
+                   'spiftool_get_word / spiftool_get_pword are the models of property C12; their theorems (LV.Split.SplitProofs, '
+                   'SplitFrame: totality, frame, exactness) are used, not assumed',
                    'nesting of contexts and of included files at most 255 deep, no include cycles; "C" locale',
                    'spifconf_parse is entered with the file stack empty (fstate_idx = 0), as after spifconf_init_subsystem']
 
     MANIFEST = dict(
         technique='Rocq theorems about an executable Gallina model of spifconf_parse and the table/stack functions + extracted-model/implementation correspondence check',
-        text='',
+        text=('Rocq 8.16.1 theorems, all closed under the global context, about a Gallina model of spifconf_parse / '
+              'spifconf_parse_line / spifconf_open_file, the ctx_*/file_* stack macros and the four register_* functions '
+              '(tables with the index and capacity widths read from src/conf.c by tools/gen_c11.py, byte-level fgets with the '
+              'end-of-file flag, the cell-level 20480-byte line buffer with the C13 model of chomp and the C12 models of '
+              'get_word/get_pword, the two nested reading loops). C09_conf_trace: from spifconf_init_subsystem through any (<= 255) '
+              'registrations, for every tree of well-formed config files, every handler oracle (handlers with their own world) and '
+              'every expansion function, the model returns exactly what the specification (Conf/ConfSpec.v: a walk over line lists '
+              'with a stack of (context, state)) defines - the trace of handler calls (context, Begin | End | text, state in, state '
+              'out), the return value, the context stack, the variable store - with the file stack empty and every file closed, '
+              'whenever nesting stays within 255 (TooDeep) and no %preproc occurs (OutOfGrammar); NoFuel on one side is Out_of_fuel '
+              'on the other. C09_conf_trace_any_state: the same from every related state, the relation is kept (sequences of parses, '
+              'blocks left open). C09_register_context: registration is the specification\'s ("null" replaces entry 0). '
+              'C09_conf_stacks_restored: fstate_idx and the open-file count are back at their entry values and ctx_state_idx = entry '
+              'value + Begin calls - End calls of the trace (so restored for balanced input). C09_conf_index_below_capacity / '
+              'C09_push_in_bounds: the index is below the capacity before every store, across every doubling, for any number of '
+              'pushes. Hypotheses of the theorems: the expansion yields a C string that fits the line buffer and does not make a '
+              '%include line vanish (property C10); spiftool_get_word / get_pword are used through LV.Split.SplitProofs and '
+              'SplitFrame (property C12, proved there). The model is tied to the current tree by running its extracted OCaml form and '
+              'the ASan/UBSan build of the sources (harness/c09.c #includes src/conf.c so the static indices and capacities are read '
+              'directly) on the same generated histories: nesting 0-255 with every capacity boundary, %include chains up to 255 deep, '
+              'include trees of 1-4 files, random registrations with "null" re-registration, every odd spelling the classifier '
+              'distinguishes, lines around the 20480-byte limit, missing final newline; handler traces, return values, stack '
+              'indices and open descriptors are level A, raw counters and capacities level B.'),
         design_ref='DESIGN.md section 7, C09')
 
     def gen(self, tier, rng):
@@ -33,6 +67,7 @@ class C09(vlib.PropertyCheck):
         cases = []
         cases += L.gen_depth_sweep(rng, [0, 1, 9, 10, 11, 19, 20, 21, 39, 40, 41, 79, 80, 81, 159, 160, 161, 254, 255] if quick else L.DEPTHS)
         cases += L.gen_include_depth(rng, [1, 2, 4, 9, 10, 11, 19, 20, 21, 39, 40, 41] if quick else [1, 2, 3, 4, 8, 9, 10, 11, 12, 19, 20, 21, 22, 39, 40, 41, 42, 50])
+        cases += L.gen_chain([9, 10, 11, 19, 20, 21, 39, 40, 41, 79, 80, 81, 159, 160, 161, 254, 255] if quick else [1, 2, 8, 9, 10, 11, 12, 19, 20, 21, 22, 39, 40, 41, 42, 79, 80, 81, 82, 159, 160, 161, 162, 200, 253, 254, 255])
         cases += L.gen_tables(rng, [1, 18, 19, 20, 21, 39, 40, 159, 160, 161, 255] if quick else [0, 1, 2, 18, 19, 20, 21, 38, 39, 40, 41, 78, 79, 80, 81, 158, 159, 160, 161, 200, 247, 248, 254, 255])
         cases += L.gen_open(rng, long_version=False)
         cases += L.gen_structured(rng, 500 if quick else 8000)
@@ -41,6 +76,12 @@ class C09(vlib.PropertyCheck):
 
     def build_impl(self):
         return L.build_impl_consistent(self)
+
+    def extra_steps(self, ctx):
+        rng = ctx['rng']
+        cases = (L.gen_depth_sweep(rng, [19, 20, 21, 159, 160, 161, 254, 255]) + L.gen_chain([10, 20, 40, 80, 160, 255]) +
+                 L.gen_tables(rng, [20, 160, 255]))
+        return L.impl_faults(self, ctx, cases)
 
     def search_gen(self, tier, rng):
         return L.gen_depth_sweep(rng, L.DEPTHS) + L.gen_tables(rng, [19, 20, 159, 160, 161, 255]) + L.gen_structured(rng, 300)
